@@ -35,12 +35,12 @@ RELS = {
     "cp_apr_pqnr": ["R1", "R1s", "R2", "R2d", "R3", "R4", "R5"],
     "hosvd": ["R1p", "R1s", "R2", "R6", "R7"],
     "tucker_als": ["R1", "R1p", "R1s", "R2", "R4", "R5", "R6", "R7"],
-    "gcp_lbfgsb": ["R1", "R1p", "R1s", "R2", "R3", "R4", "R7"],
+    "gcp_lbfgsb": ["R1", "R1p", "R1s", "R1g", "R2", "R3", "R4", "R7"],
 }
 # R1/R1p/R2/R3 vary only what the simulator owns (seed, call history, output sink, clock): the arithmetic of
 # the run is the same, so the results must be bit-identical (0.0). A print-only branch that touches the
 # running model shows up as a last-bit difference long before it shows up at any rounding tolerance.
-TOL = {"R1": 0.0, "R1p": 0.0, "R1s": 0.0, "R1f": 0.0, "R2": 0.0, "R2d": 0.0, "R3": 0.0, "R4": 1e-12, "R5": 1e-8, "R6": 1e-8, "R7": 1e-8}
+TOL = {"R1": 0.0, "R1p": 0.0, "R1s": 0.0, "R1g": 0.0, "R1f": 0.0, "R2": 0.0, "R2d": 0.0, "R3": 0.0, "R4": 1e-12, "R5": 1e-8, "R6": 1e-8, "R7": 1e-8}
 FIT_TOL = 1e-6
 PQNR_KNOWN_MSG = "ERROR: L-BFGS first iterate is bad"
 
@@ -134,6 +134,7 @@ class EngineC18:
                 init["maxiter"] = sw.randint(2, 6)
                 init["loss"] = loss
                 init["init_kind"] = weighted(sw, [("random", 3), ("explicit", 3)])
+                init["guess_form"] = sw.choice(["ktensor", "ktensor", "list", "tuple"])  # how an explicit guess is handed over
         if init.get("init_kind") == "explicit":
             rk = init.get("ranks") or [init["rank"]] * N
             lo = 0.05 if (apr or alg == "gcp_lbfgsb") else -1.0
@@ -155,7 +156,7 @@ class EngineC18:
         if init.get("init_kind") != "random":
             rels = [r for r in rels if r not in ("R4",)]
         if alg == "gcp_lbfgsb" and init.get("init_kind") != "explicit":
-            rels = [r for r in rels if r != "R7"]
+            rels = [r for r in rels if r not in ("R7", "R1g")]
         if alg == "hosvd" or init.get("init_kind") == "explicit":
             rels = [r for r in rels if r != "R1"] + (["R1"] if alg != "hosvd" else [])
         g.shuffle(rels)
@@ -179,6 +180,9 @@ class EngineC18:
         if rel == "R1s":
             # no random start is involved (explicit guess / HOSVD): the result must not depend on the global seed at all
             return {"op": "R1s", "other_seed": g.randrange(2**31)}
+        if rel == "R1g":
+            # the same explicit guess handed over in another form (Kruskal tensor / list / tuple of the factor matrices)
+            return {"op": "R1g", "form": g.choice([f for f in ("ktensor", "list", "tuple") if f != init.get("guess_form", "ktensor")])}
         if rel == "R1p":
             return {"op": "R1p", "prelude": g.choice(["eigs", "ops", "both"])}
         if rel == "R2":
@@ -317,6 +321,9 @@ class EngineC18:
 
                 opt = LBFGSB(maxiter=init["maxiter"], iprint=-1)
                 g0 = ttb.ktensor([f.copy() for f in guess]) if isinstance(guess, list) else guess
+                form = variant.get("guess_form") or init.get("guess_form", "ktensor")
+                if isinstance(guess, list) and form != "ktensor":
+                    g0 = [f.copy() for f in guess] if form == "list" else tuple(f.copy() for f in guess)
                 M, M0, info = ttb.gcp_opt(data, init["rank"], getattr(Objectives, init["loss"]), opt, init=g0, printitn=printitn)
                 out.update(full=M.full().data.copy(), fit=float(info["final_f"]), iters=int(info["nit"]), guess_out=[f.copy() for f in M0.factor_matrices], guess_w=M0.weights.copy())
             out["rng_after"] = rng_state_digest()
@@ -409,6 +416,10 @@ class EngineC18:
         scale = 1.0
         if op == "R1":
             pass
+        elif op == "R1g":
+            if init.get("init_kind") != "explicit":
+                raise Skip("no_explicit_guess")
+            var = {"guess_form": step["form"]}
         elif op == "R1p":
             var = {"prelude": step["prelude"]}
         elif op == "R1s":
@@ -556,7 +567,7 @@ class EngineC18:
                 if d <= 100.0 * d_self:
                     raise Skip("ill_conditioned_problem")
             return V("same_model", f"relative difference {d:.3e} > {tol:g} between base and variant {step}")
-        if op in ("R1", "R1p", "R1s", "R3", "R4") and base["iters"] != other["iters"]:
+        if op in ("R1", "R1p", "R1s", "R1g", "R3", "R4") and base["iters"] != other["iters"]:
             return V("same_iteration_count", f"{base['iters']} vs {other['iters']} iterations")
         if op == "R2d" and base["iters"] != other["iters"]:
             return V("same_iteration_count", f"deadline cut after {base['iters']} vs {other['iters']} iterations under other verbosity")
